@@ -7,7 +7,7 @@
    schedules is proved on the abstract protocol in coq/RaftAbs by the raftabs group.
 
    The abstract-protocol theorems (coq/RaftAbs) are stated at the end of this file. *)
-From ZV Require Import Raft.Consts Raft.Model Raft.Proofs Raft.ProofsLog Raft.ProofsStore.
+From ZV Require Import Raft.Consts Raft.Model Raft.Proofs Raft.ProofsLog Raft.ProofsStore Raft.ProofsRocks.
 From Coq Require Import List NArith.
 Import ListNotations.
 Open Scope N_scope.
@@ -102,6 +102,69 @@ Theorem C03_rocks_append_spec : forall s e0 r s', rs_inv s -> contig (eindex e0)
                   ++ filter (fun e => first <=? eindex e) (e0 :: r)).
 Proof. exact rs_append_spec. Qed.
 Print Assumptions C03_rocks_append_spec.
+
+(* (8) cache independence: in a good RocksStorage state Term answers, for EVERY index, what MemoryStorage
+       answers on the view (a function of the key space and the snapshot meta only: rs_view ignores both cached
+       indexes), errors included, and leaves the view unchanged *)
+Theorem C03_rocks_view_ignores_caches : forall si st db fc lc fc' lc',
+  rs_view (mkRS si st db fc lc) = rs_view (mkRS si st db fc' lc').
+Proof. exact rs_view_cache_independent. Qed.
+Print Assumptions C03_rocks_view_ignores_caches.
+
+Theorem C03_rocks_term_as_memory : forall s i, rs_good s ->
+  rfst (rs_term s i) = ms_term (rs_view s) i /\
+  forall t s', rs_term s i = Ok (t, s') -> rs_good s' /\ rs_view s' = rs_view s.
+Proof. exact good_term. Qed.
+Print Assumptions C03_rocks_term_as_memory.
+
+(* (9) Entries on a non-empty range: compacted on both sides, or the same entries (same size cut); the only
+       difference is beyond the last index, where MemoryStorage panics and RocksStorage returns ErrUnavailable —
+       raftLog turns both into a panic *)
+Theorem C03_rocks_entries_as_memory : forall s lo hi max, rs_good s -> lo < hi ->
+  (lo <= rs_off s -> rs_entries s lo hi max = Err ErrCompacted /\ ms_entries (rs_view s) lo hi max = Err ErrCompacted) /\
+  (rs_off s < lo -> rs_lastk s + 1 < hi ->
+     rs_entries s lo hi max = Err ErrUnavailable /\ ms_entries (rs_view s) lo hi max = Panic) /\
+  (rs_off s < lo -> hi <= rs_lastk s + 1 ->
+     exists es s', rs_entries s lo hi max = Ok (es, s') /\ ms_entries (rs_view s) lo hi max = Ok es /\
+                   rs_good s' /\ rs_view s' = rs_view s).
+Proof. exact good_entries. Qed.
+Print Assumptions C03_rocks_entries_as_memory.
+
+(* (10) Append of a contiguous batch that leaves no gap is MemoryStorage.Append on the view, and keeps the state good *)
+Theorem C03_rocks_append_as_memory : forall s e0 r, rs_good s -> contig (eindex e0) (e0 :: r) -> eindex e0 <= rs_lastk s + 1 ->
+  exists s' m', rs_append s (e0 :: r) = Ok s' /\ ms_append (rs_view s) (e0 :: r) = Ok m' /\
+                rs_good s' /\ rs_view s' = m' /\ rs_off s' = rs_off s.
+Proof. exact good_append. Qed.
+Print Assumptions C03_rocks_append_as_memory.
+
+(* (11) = (2) over RocksStorage: persist the unstable entries, then stableTo — the combined log is unchanged and
+        every index is readable from the engine alone *)
+Theorem C03_rocks_persist_then_stable : forall l s e0 r,
+  wf_rlog l s -> u_snap (l_u l) = None -> u_ents (l_u l) = e0 :: r ->
+  exists s' le l2,
+    rs_append s (e0 :: r) = Ok s' /\ last_opt (e0 :: r) = Some le /\
+    l_stable_to (set_st l (SRocks s')) (eindex le) (eterm le) = Ok l2 /\
+    wf_rlog l2 s' /\ rs_off s' = rs_off s /\ u_ents (l_u l2) = [] /\ u_off (l_u l2) = eindex le + 1 /\
+    rlast l2 s' = rlast l s /\
+    (forall i, rs_off s < i -> i <= rlast l s -> r_log_entry (l_u l2) s' i = r_log_entry (l_u l) s i) /\
+    (forall i, rs_off s < i -> i <= rlast l s -> db_get i (rs_db s') = r_log_entry (l_u l) s i).
+Proof. exact persist_then_stable_rocks. Qed.
+Print Assumptions C03_rocks_persist_then_stable.
+
+(* (12) = (3) over RocksStorage: restart — newLog over a good engine state exposes exactly the stored keys *)
+Theorem C03_rocks_restart_reads_storage : forall s mx, rs_good s ->
+  exists l s', new_log (SRocks s) mx = Ok l /\ wf_rlog l s' /\ rs_view s' = rs_view s /\ rs_db s' = rs_db s /\
+    l_committed l = rs_off s /\ l_applied l = rs_off s /\ u_ents (l_u l) = [] /\ u_snap (l_u l) = None /\
+    forall i, rs_off s < i -> r_log_entry (l_u l) s' i = db_get i (rs_db s).
+Proof. exact new_log_rocks. Qed.
+Print Assumptions C03_rocks_restart_reads_storage.
+
+(* (13) goodness is reachable-closed: from a fresh engine, every sequence of FirstIndex / LastIndex / Term / Entries on
+        a non-empty range / CreateSnapshot / Compact not beyond the snapshot / contiguous gap-free Append / restart of
+        the storage object keeps the state good (ApplySnapshot is not in this list) *)
+Theorem C03_rocks_good_reachable : forall ops s, rs_good s -> rops_good s ops -> rs_good (fold_left rs_step ops s).
+Proof. exact good_reachable. Qed.
+Print Assumptions C03_rocks_good_reachable.
 
 (* ====================================================================================== *)
 (* The property over all schedules, on the abstract protocol of coq/RaftAbs (Model.v: per-node term /
@@ -209,3 +272,13 @@ Example C03_ex_rocks_ops :
   Forall rop_ok ops /\ rs_lc (fold_left rs_step ops rs_new) = 4 /\
   recomputed_first (fold_left rs_step ops rs_new) = Some 3.
 Proof. split; [repeat constructor; vm_compute; repeat split|]. vm_compute. split; reflexivity. Qed.
+Example C03_ex_rocks_good : rs_good rs_new /\
+  rops_good rs_new [RAppend [mkE 1 1 11 10; mkE 1 2 12 10]; RCreateSnap 1; RCompact 1; RReopen; RAppend [mkE 2 2 22 10; mkE 2 3 23 10]].
+Proof.
+  split; [exact good_new|]. cbn [rops_good].
+  split; [apply GAppend; [vm_compute; repeat split|vm_compute; discriminate]|].
+  split; [apply GCreate|].
+  split; [apply GCompact; right; vm_compute; discriminate|].
+  split; [apply GReopen|].
+  split; [apply GAppend; [vm_compute; repeat split|vm_compute; discriminate]|exact I].
+Qed.
